@@ -180,8 +180,139 @@ pub fn schedule(data: &[u8]) -> Option<String> {
     crate::purity::run_schedule(&s).violation.map(|(a, b)| format!("{a}: {b} :: {}", serde_json::to_string(&s).unwrap_or_default()))
 }
 
+/// C08: a weight type, a vector (special magnitudes incl. MAX/len and its neighbours) -> constructor spec +
+/// weights() reconstruction, then a few samples under forced words (index in range, non-zero weight).
+pub fn alias_vector(data: &[u8]) -> Option<String> {
+    use rand_distr::weighted::WeightedAliasIndex;
+    use rand_distr::Distribution;
+    let mut u = Unstructured::new(data);
+    let ty = u.int_in_range(0..=6u8).ok()?;
+    let len = u.int_in_range(0..=40u32).ok()? as usize;
+    let (float, mx): (bool, u128) = match ty {
+        0 => (false, u8::MAX as u128),
+        1 => (false, i8::MAX as u128),
+        2 => (false, u16::MAX as u128),
+        3 => (false, u32::MAX as u128),
+        4 => (false, i64::MAX as u128),
+        5 => (true, 0),
+        _ => (true, 1),
+    };
+    let mut ws = vec![];
+    for _ in 0..len {
+        let m = if !float && u.ratio(1, 3).ok()? {
+            // the documented acceptance boundary w <= MAX / len and its neighbours
+            let b = mx / len.max(1) as u128;
+            M::I { neg: false, mag: match u.int_in_range(0..=2u8).ok()? { 0 => b, 1 => b.saturating_sub(1), _ => (b + 1).min(mx) } }
+        } else if float && u.ratio(1, 4).ok()? {
+            let fm = if mx == 1 { f32::MAX as f64 } else { f64::MAX };
+            M::F(fm / len.max(1) as f64 / [1.0, 2.0, 4.0, 8.0, 1e3, 1e30][u.int_in_range(0..=5u8).ok()? as usize])
+        } else {
+            dec_weight(&mut u, float, mx)?
+        };
+        ws.push(m);
+    }
+    let w0: u64 = u.arbitrary().ok()?;
+    let w1: u64 = u.arbitrary().ok()?;
+    fn go<W: crate::weighted::Wt>(ws: &[M], w0: u64, w1: u64) -> Option<(String, String, String)>
+    where
+        WeightedAliasIndex<W>: Distribution<usize>,
+    {
+        // the model is the vector as the weight type sees it (an unsigned type has no -1, f32 rounds)
+        let ws: Vec<M> = ws.iter().map(|&m| W::from_m(m).to_m()).collect();
+        let ws = &ws[..];
+        let cls = crate::weighted::vec_class_pub::<W>(ws);
+        if let Some((s, m)) = crate::weighted::alias_structural::<W>(ws) {
+            return Some((s, m, cls.to_string()));
+        }
+        let input: Vec<W> = ws.iter().map(|&m| W::from_m(m)).collect();
+        if let Ok(Ok(d)) = crate::report::catch(|| WeightedAliasIndex::<W>::new(input)) {
+            let l = lattice();
+            for (k, &(a, b)) in [(w0, w1), (l[(w0 % l.len() as u64) as usize], w1), (w0, l[(w1 % l.len() as u64) as usize]), (u64::MAX, u64::MAX), (0, 0)].iter().enumerate() {
+                let mut rng = crate::rng::VRng::from_env(k as u64);
+                rng.force(0, a);
+                rng.force(1, b);
+                rng.begin_call();
+                match crate::report::catch(|| d.sample(&mut rng)) {
+                    Ok(i) => {
+                        let bad = i >= ws.len() || (!W::IS_FLOAT && ws[i].is_zero()) || (W::IS_FLOAT && ws[i].f() == 0.0);
+                        if bad {
+                            return Some(("bad_index".into(), format!("WeightedAliasIndex<{}> {:?} returned index {i} (zero weight or out of range) with words {a:#x}, {b:#x}", W::NAME, ws), cls.to_string()));
+                        }
+                    }
+                    Err(p) => return Some(("panic".into(), format!("WeightedAliasIndex<{}> {:?}: sample panicked: {}", W::NAME, ws, p.lines().next().unwrap_or("")), cls.to_string())),
+                }
+            }
+        }
+        None
+    }
+    let (r, wt) = match ty {
+        0 => (go::<u8>(&ws, w0, w1), "u8"),
+        1 => (go::<i8>(&ws, w0, w1), "i8"),
+        2 => (go::<u16>(&ws, w0, w1), "u16"),
+        3 => (go::<u32>(&ws, w0, w1), "u32"),
+        4 => (go::<i64>(&ws, w0, w1), "i64"),
+        5 => (go::<f64>(&ws, w0, w1), "f64"),
+        _ => (go::<f32>(&ws, w0, w1), "f32"),
+    };
+    let (sym, msg, cls) = r?;
+    if known("C08", "WeightedAliasIndex", wt, &sym, &cls, serde_json::Value::Null) {
+        return None;
+    }
+    Some(format!("{sym}: {msg} :: {}", serde_json::to_string(&ws).unwrap_or_default()))
+}
+
+/// C10: a tree history, then try_sample under one forced word (and the largest / smallest draws)
+pub fn tree_sample(data: &[u8]) -> Option<String> {
+    let mut u = Unstructured::new(data);
+    let ty = u.int_in_range(0..=5u8).ok()?;
+    let (float, mx): (bool, u128) = match ty {
+        0 => (false, u8::MAX as u128),
+        1 => (false, i8::MAX as u128),
+        2 => (false, u32::MAX as u128),
+        3 => (false, i64::MAX as u128),
+        4 => (true, 0),
+        _ => (true, 1),
+    };
+    let n = u.int_in_range(1..=60u32).ok()?;
+    let mut ops = vec![];
+    for _ in 0..n {
+        let op = match u.int_in_range(0..=9u8).ok()? {
+            0..=3 => Op::Push(dec_weight(&mut u, float, mx)?),
+            4 => Op::Pop,
+            5..=8 => Op::Update(u.int_in_range(0..=255u32).ok()? as usize, dec_weight(&mut u, float, mx)?),
+            _ => {
+                let k = u.int_in_range(0..=12u8).ok()?;
+                let mut ws = vec![];
+                for _ in 0..k {
+                    ws.push(dec_weight(&mut u, float, mx)?);
+                }
+                Op::New(ws)
+            }
+        };
+        ops.push(op);
+    }
+    let pos = u.int_in_range(0..=1u64).ok()?;
+    let word: u64 = if u.ratio(1, 2).ok()? { let l = lattice(); l[u.int_in_range(0..=(l.len() as u32 - 1)).ok()? as usize] } else { u.arbitrary().ok()? };
+    let seed: u64 = u.arbitrary().ok()?;
+    let (r, wt) = match ty {
+        0 => (crate::weighted::tree_sample_case::<u8>(&ops, pos, word, seed), "u8"),
+        1 => (crate::weighted::tree_sample_case::<i8>(&ops, pos, word, seed), "i8"),
+        2 => (crate::weighted::tree_sample_case::<u32>(&ops, pos, word, seed), "u32"),
+        3 => (crate::weighted::tree_sample_case::<i64>(&ops, pos, word, seed), "i64"),
+        4 => (crate::weighted::tree_sample_case::<f64>(&ops, pos, word, seed), "f64"),
+        _ => (crate::weighted::tree_sample_case::<f32>(&ops, pos, word, seed), "f32"),
+    };
+    let (sym, msg) = r?;
+    if known("C10", "WeightedTreeIndex", wt, &sym, crate::streams::word_class(word), serde_json::Value::Null) {
+        return None;
+    }
+    Some(format!("{sym}: {msg} :: word {word:#x} at {pos}, seed {seed}, ops {}", serde_json::to_string(&ops).unwrap_or_default()))
+}
+
 pub fn run_target(target: &str, data: &[u8]) -> Option<String> {
     match target {
+        "alias_vector" => alias_vector(data),
+        "tree_sample" => tree_sample(data),
         "stream_case" => stream_case(data),
         "ctor_case" => ctor_case(data),
         "tree_history" => tree_history(data),
